@@ -83,9 +83,11 @@ def run_update_projects(rep, tier, seed, focus, model_ok=True, effort=1, legacy_
         force = rwgen.CORPUS_PATTERNS[i] if i < len(rwgen.CORPUS_PATTERNS) else None
         if force:
             legacy = False
-        spec = rwgen.gen_project(r, impl, legacy=legacy, allow_dup=(focus == "outside"), force=force, max_files=2 if force else 5)
+        spec = rwgen.gen_project(r, impl, legacy=legacy, allow_dup=(focus == "outside"), force=force, max_files=2 if force else 5, tree=True)
         if not spec["old"]:
             continue
+        if any(f.group for f in spec["files"]):
+            rep.count("projects-with-recursive-glob-entry")
         with rwgen.to_temp_project(project, spec) as prj:
             try:
                 rwgen.write_contents(prj, spec)
